@@ -17,6 +17,8 @@ package coresim
 //                                              forget it (accepted and lost)
 //   c18_mark                                   remember how many RECONCILE and ACKNOWLEDGE calls the master has seen
 //   c18_waitacks {n, timeout_ms}               wait for n ACKNOWLEDGE calls after the last mark
+//   c18_waitkills {n, timeout_ms}              wait for n KILL calls after the last mark
+//   c18_waitarrived {point, n, timeout_ms}     wait until a hook point has been reached n times (in-process core)
 //   c18_poke                                   the master repeats the latest status of the task whose KILL is held
 //   c18_waitreconcile {timeout_ms}             wait for a RECONCILE call after the last mark / wait
 //   c18_waitdead {timeout_ms}                  wait until the master has no non-terminal task
@@ -66,6 +68,8 @@ type c18State struct {
 	mark       int
 	acks       int
 	ackMark    int
+	kills      int // KILL calls that have arrived (held or not)
+	killMark   int
 	heldKill   string // task of the KILL call held last
 	installed  *Master
 }
@@ -211,6 +215,7 @@ func (s *c18State) install(r *Runner) {
 			kv = append(kv, "task", call.Kill.TaskID.Value)
 			s.mu.Lock()
 			s.heldKill = call.Kill.TaskID.Value
+			s.kills++
 			s.mu.Unlock()
 		}
 		// commands are sent with one MESSAGE call per target task: hold them all.
@@ -340,8 +345,29 @@ func init() {
 	}
 	ExtraSteps["c18_mark"] = func(r *Runner, st *Step, ctx context.Context) {
 		c18.mu.Lock()
-		c18.mark, c18.ackMark = c18.reconciles, c18.acks
+		c18.mark, c18.ackMark, c18.killMark = c18.reconciles, c18.acks, c18.kills
 		c18.mu.Unlock()
+	}
+	// c18_waitkills: wait for n KILL calls after the last mark (how long the core takes to act on a reconciliation answer
+	// depends on the machine; the driver goes on when it has acted, not after a pause)
+	ExtraSteps["c18_waitkills"] = func(r *Runner, st *Step, ctx context.Context) {
+		deadline := time.Now().Add(c18Timeout(st, 10*time.Second))
+		n := 0
+		for {
+			c18.mu.Lock()
+			n = c18.kills - c18.killMark
+			c18.mu.Unlock()
+			if n >= st.N || time.Now().After(deadline) {
+				break
+			}
+			time.Sleep(2 * time.Millisecond)
+		}
+		r.Emit("Killed", "count", n, "ok", n >= st.N)
+	}
+	// c18_waitarrived: wait until a hook point has been reached n times since the process started (in-process core)
+	ExtraSteps["c18_waitarrived"] = func(r *Runner, st *Step, ctx context.Context) {
+		ok := r.Sched.WaitArrived(st.Point, st.N, c18Timeout(st, 5*time.Second))
+		r.Emit("Arrived", "point", st.Point, "n", st.N, "ok", ok)
 	}
 	// c18_poke: the master repeats the latest status of the task whose KILL call is held (Mesos re-sends unacknowledged
 	// updates): the core answers with an ACKNOWLEDGE call, issued after the held call
